@@ -44,8 +44,12 @@ func getSwapInSenderStates() States {
 			Action: &SendMessageAction{},
 			Events: Events{
 				Event_ActionSucceeded: State_SwapInSender_AwaitAgreement,
-				Event_ActionFailed:    State_SwapCanceled,
+				Event_ActionFailed:    State_SendCancel,
 			},
+			// The negotiation timeout lives in memory only. After a restart
+			// nothing would end the wait for the agreement, so fail the swap
+			// and tell the peer.
+			FailOnrecover: true,
 		},
 		State_SwapInSender_AwaitAgreement: {
 			Action: &NoOpAction{},
@@ -54,7 +58,9 @@ func getSwapInSenderStates() States {
 				Event_OnTimeout:                        State_SendCancel,
 				Event_SwapInSender_OnAgreementReceived: State_SwapInSender_BroadcastOpeningTx,
 				Event_OnInvalid_Message:                State_SendCancel,
+				Event_ActionFailed:                     State_SendCancel,
 			},
+			FailOnrecover: true,
 		},
 		State_SwapInSender_BroadcastOpeningTx: {
 			Action: &CheckPremiumAmount{next: &CreateAndBroadcastOpeningTransaction{}},
